@@ -71,7 +71,7 @@ impl LockFile {
 			.read(true)
 			.write(true)
 			.create(true)
-			.truncate(true)
+			.truncate(false)
 			.open(&self.path)
 			.map_err(|e| Error::Io(Arc::new(e)))?;
 
